@@ -32,17 +32,23 @@ func ZZ_C19_SaveLoad() {
 		s.narrow = true
 	}
 	nset := vParam("nset")
+	lean := vParam("lean") == 1 // distinct keys 1..nset, no clock movement: only the weights vary (symbolic)
 	for i := 0; i < nset; i++ {
-		if i > 0 && conc {
+		if i > 0 && conc && !lean {
 			s.zzAdvance(conc) // symbolic-clock family: all writes at t0 (one symbolic advance before save, one before load)
 		}
-		k := 1 + vChoice("key", zzNK)
+		k := i + 1
+		if !lean {
+			k = 1 + vChoice("key", zzNK)
+		}
 		s.step(zzOpSet, k, "c19.build")
 	}
 	if vParam("override") == 1 && s.withExp() {
 		s.step(zzOpSetExpiresAfter, 1, "c19.build")
 	}
-	s.zzAdvance(conc) // one entry may already be expired at save time
+	if !lean {
+		s.zzAdvance(conc) // one entry may already be expired at save time
+	}
 	// what the source holds at save time (weights as the source recorded them)
 	src := s.m
 	saveNow := s.now()
@@ -70,7 +76,9 @@ func ZZ_C19_SaveLoad() {
 	t.env = zzNewEnv(tcfg)
 	t.maximum = uint64(tcfg.max)
 	t.env.clk.now = s.now()
-	t.zzAdvance(conc) // clock offset between save and load
+	if !lean {
+		t.zzAdvance(conc) // clock offset between save and load
+	}
 	loadNow := t.now()
 	err = LoadCacheFrom(t.env.c, buf)
 	vAssert(err == nil, "c19.load_ok")
@@ -90,6 +98,9 @@ func ZZ_C19_SaveLoad() {
 		if ok {
 			tgtTotal += uint64(e.Weight)
 			vAssert(e.Value == src[k].val, "c19.value")
+			if tcfg.bound == 2 {
+				vAssert(e.Weight == src[k].w, "c19.weight")
+			}
 			if s.withExp() {
 				if src[k].exp == zzMaxI64 {
 					// pinned entry (deadline saturated to the "unreachable" sentinel)
